@@ -434,6 +434,15 @@ def escape(F, rep, fm):
                         ints.add(int(c.split("_")[0]))
                     except ValueError:
                         pass
+            # `match *byte { b'"' | b'\\' => .. }` tests the same bytes through a SwitchInt on a u8
+            for b in blocks:
+                t = fl.term(b)
+                if t["t"] == "switch" and t.get("ty") == "u8":
+                    for v, _ in t["targets"]:
+                        try:
+                            ints.add(int(v))
+                        except ValueError:
+                            pass
             raw_cast = any(s["s"] == "assign" and s["rv"]["r"] == "cast" and s["rv"]["ty"] == "char"
                            for b in blocks for s in fl.stmts(b))
             # closures built inside the arm (`.flat_map(|b| ..)`) belong to it
